@@ -22,7 +22,7 @@ RULE = ("sizes {1, 2, 1000, 64 KiB, 1 MiB-1, 1 MiB, 1 MiB+1, 4 MiB, 8 MiB} (+ ra
         "{immediate, delayed start, small reads with sleeps, a 7 s stall after the first MiB, small reads while the sender "
         "disables as soon as its send succeeded, abortive close midway} x peer receive buffer {default, 4 KiB}; 1-3 sends per "
         "connection; distinct by (mode, path, sizes, pacing, rcvbuf); non-trivial when the total exceeds 256 KiB "
-        "(more than loopback socket buffering); plus: thousands of 3000-byte sends (and mixed 1..4097-byte sends) towards a peer that reads in bursts or lets the sender run into full buffers and then makes room for 100 kB at a time")
+        "(more than loopback socket buffering); plus: thousands of 3000-byte sends (and mixed 1..4097-byte sends) towards a peer that reads in bursts or lets the sender run into full buffers and then makes room for 100 kB at a time; a peer that leaves in the middle of a transfer while another one connects at once (nothing of the send may reach the second)")
 ASSUMPTIONS = ["loopback only; buffer sizes are the kernel's", "payload bytes are a position-keyed pseudo-random stream so loss, "
                "duplication and reordering are all visible", "a send that reports failure only needs to have delivered a prefix"]
 LEVEL_TEXT = ("Runtime conservation monitoring (bytes accepted = bytes received, in order) of the real socket path under "
@@ -97,6 +97,10 @@ class Drain(threading.Thread):
                     return
                 self.data += chunk
                 self.last_rx = time.monotonic()
+                if self.pacing == "close_then_new_peer" and len(self.data) >= self.close_after:
+                    self.sock.close()        # orderly close in the middle of the transfer; another peer connects right away
+                    self.eof = True
+                    return
                 if self.pacing == "close_midway" and len(self.data) >= self.close_after:
                     # abortive close: unread data in the receive buffer makes the kernel send RST
                     self.sock.setsockopt(socket.SOL_SOCKET, socket.SO_LINGER, __import__("struct").pack("ii", 1, 0))
@@ -148,7 +152,7 @@ def _case(ctx, idx, active, path, sizes, pacing, rcvbuf):
             listener.settimeout(5)
         if path == "send_data":
             conn = settings.create_connection()
-            conn.select_timeout = 0.05
+            conn.select_timeout = 0.05 if pacing != "close_then_new_peer" else conn.select_timeout
             conn.on_connected.register(lambda d: connected.set())
             conn.enable()
         else:
@@ -198,6 +202,44 @@ def _case(ctx, idx, active, path, sizes, pacing, rcvbuf):
         drain.start()
         th = threading.Thread(target=sender, daemon=True, name="harness-sender")
         th.start()
+        second = bytearray()
+        if pacing == "close_then_new_peer":
+            # the first peer leaves in the middle of the transfer and another one connects at once: it must not get the rest
+            end = time.monotonic() + 20
+            while time.monotonic() < end and not drain.eof:
+                time.sleep(0.001)
+            peer2 = None
+            end = time.monotonic() + 5
+            while time.monotonic() < end and peer2 is None and not active:
+                try:
+                    peer2 = socket.create_connection(("127.0.0.1", port), timeout=1.0)
+                except OSError:
+                    time.sleep(0.005)
+            if active and listener is not None:
+                listener.settimeout(4.0)
+                try:
+                    peer2, _ = listener.accept()
+                except OSError:
+                    peer2 = None
+            if peer2 is not None:
+                ctx.count("transfers.new_peer_right_after_the_first_left")
+                peer2.settimeout(0.2)
+                end = time.monotonic() + 3.0
+                while time.monotonic() < end:
+                    try:
+                        chunk = peer2.recv(65536)
+                        if not chunk:
+                            break
+                        second += chunk
+                    except socket.timeout:
+                        if not th.is_alive() and time.monotonic() > end - 1.5:
+                            break
+                    except OSError:
+                        break
+                try:
+                    peer2.close()
+                except OSError:
+                    pass
         th.join(120)
         if th.is_alive():
             ctx.unsure(f"send did not return within 120 s: {wit}")
@@ -253,6 +295,24 @@ def _case(ctx, idx, active, path, sizes, pacing, rcvbuf):
         if total > 256 * 1024 and (pacing != "immediate" or rcvbuf):
             ctx.count("transfers.larger_than_socket_buffers_with_slow_reader")
         ok_all = all(results) and len(results) == len(blobs)
+        if pacing == "close_then_new_peer":
+            ctx.count("transfers.peer_closed_midway")
+            leaked = bytes(second)
+            if path == "send_message":
+                frames2, rest2 = wire.parse_hsms_stream(leaked)
+                # control frames of the new connection (Select.req of an active endpoint) are not payload; bytes that do not even
+                # form a frame are
+                leaked = b"".join(wire.hsms_frame(f.session, f.byte2, f.byte3, f.ptype, f.stype, f.system, f.body) for f in frames2 if f.stype == wire.DATA) + rest2
+            w3 = {**wit, "results": results, "bytes_expected": len(expected), "bytes_received_by_first_peer": len(got), "bytes_received_by_second_peer": len(leaked)}
+            if leaked:
+                ctx.violation("bytes-of-a-send-arrive-on-a-later-connection", w3)
+            elif ok_all and bytes(expected[:len(got)]) == got and len(got) < len(expected):
+                ctx.violation("send-reported-success-but-bytes-lost", w3)
+            elif bytes(expected[:len(got)]) != got:
+                ctx.violation("failed-send-delivered-non-prefix", w3)
+            if not ok_all:
+                ctx.count("transfers.reported_failure")
+            return
         if pacing == "close_midway":
             ctx.count("transfers.peer_closed_midway")
         w2 = {**wit, "results": results, "bytes_expected": len(expected), "bytes_received": len(got)}
@@ -314,6 +374,7 @@ def run(ctx):
             cases.append((active, path, [3, 300000, 70000], "small", 0))
             cases.append((active, path, [6 * MiB], "close_midway", 0))
             cases.append((active, path, [2 * MiB, 2 * MiB], "close_midway", 4096))
+            cases.append((active, path, [8 * MiB], "close_then_new_peer", 0))
             if path == "send_data":
                 cases.append((active, path, [48 * MiB], "close_midway", 0))
             if path == "send_message":
